@@ -163,6 +163,11 @@ def check_word(case, res):
     td = code.get_text_decoration()
     if bool(td is not None and td.underline) != info["underline"]:
       res.fail("attr-underline", "%04x" % s)
+    # the rendering of a background attribute names its colour with the token the mid-row code of that colour is rendered with
+    if info["background"] and info["color"] in MIDROW_WORD and info["alpha"] != "transparent":
+      tok = get_scc_word_disassembly(SccWord.from_value(MIDROW_WORD[info["color"]]))[1:-1]
+      if dis != "{B%s%s}" % (tok, "S" if info["alpha"] == "semi" else ""):
+        res.fail("disassembly-shape:attr-colour", "%04x -> %r, expected the colour token %r of the mid-row code" % (s, dis, tok))
   elif cls == "control":
     if code.get_name() != info:
       res.fail("control-name", "%04x name %r expected %s" % (s, code.get_name(), info))
@@ -193,6 +198,9 @@ def check_word(case, res):
     res.fail("disassembly-shape:" + cls, "%04x -> %r / %r" % (s, dis, disc))
   if chan is not None and cls in ("pac", "midrow", "attr", "control", "special", "extended") and ("CC%d" % chan) not in disc:
     res.fail("disassembly-channel:" + cls, "%04x -> %r" % (s, disc))
+
+
+MIDROW_WORD = {"white": 0x1120, "green": 0x1122, "blue": 0x1124, "cyan": 0x1126, "red": 0x1128, "yellow": 0x112A, "magenta": 0x112C}
 
 
 def word_chunks(tier, seed):
